@@ -298,6 +298,46 @@ def check_C16(ctx):
         if o is None or ' ok=1' not in o:
             ctx.violation('bytecode-not-wellformed', 'compiler output fails the bytecode verifier (whose certificate orders routines): %s' % (o or '')[:200], c['text'])
         ctx.dist('maxstack_%s' % fr['maxstack'])
+    # token-level neighbours of LOOP-only sources (no WHILE / GOTO / IF token anywhere): whatever the compiler accepts must halt
+    from gen import strict
+    LOOPVOC = ['LOOP', 'Loop', 'DO', 'END', ';', ':=', '!= 0', '=', 'x0', 'x1', 'a', '1', '2', '+', '-', 'STOP', ',', 'RUN', 'WITH', 'f0', ':']
+    muts = []
+    for _ in range(ctx.n(250, 2500)):
+        g = sources.Gen(r, looponly=True)
+        defs, main = g.program()
+        ts = sources.mutate(sources.toks(defs, main), r, nedits=r.choice([1, 1, 2]), vocab=LOOPVOC)
+        if ts and not any(t.upper() in ('WHILE', 'GOTO', 'IF', 'THEN') for t in ts):
+            muts.append(ts)
+    # and every single insertion of every vocabulary token at every position of a few small ones
+    nsmall = 0
+    while nsmall < ctx.n(3, 12):
+        g = sources.Gen(r, looponly=True, maxprogs=1)
+        defs, main = g.program()
+        base = sources.toks(defs, main)
+        if len(base) > 45 or 'LOOP' not in base:
+            continue
+        nsmall += 1
+        for i in range(len(base) + 1):
+            for tkn in LOOPVOC:
+                muts.append(base[:i] + [tkn] + base[i:])
+    mtexts = [' '.join(ts) for ts in muts]
+    mg = impl(ctx, ['GEN ' + files_req(b'm', {b'm': t.encode()}) for t in mtexts])
+    acc = [(ts, t) for ts, t, o in zip(muts, mtexts, mg) if not is_crash(o) and fields(o).get('ok') == '1']
+    mr = impl(ctx, ['RUN %s 3000000' % files_req(b'm', {b'm': t.encode()}) for (_, t) in acc], timeout=120)
+    for (ts, t), rn in zip(acc, mr):
+        ctx.cov['evaluations'] += 1
+        if is_crash(rn):
+            ctx.violation('vm-crash', 'running an accepted LOOP-only source crashed: ' + rn[:200], {'m': t})
+            continue
+        if fields(rn).get('done') != '1':
+            v, why, info = strict.verdict(ts)
+            if v == 'REJ':
+                ctx.violation('loop-program-does-not-halt', 'an accepted source without WHILE / GOTO did not halt within 3 000 000 instructions (it is not even a sentence of the grammar: %s)' % why, {'m': t})
+            elif ctx.driver:
+                sm = model(ctx, ['SEM %s 400000' % files_req(b'm', {b'm': t.encode()})], timeout=120)[0]
+                if not is_crash(sm) and fields(sm).get('status') == 'halted':
+                    ctx.violation('loop-program-does-not-halt', 'an accepted source without WHILE / GOTO did not halt within 3 000 000 instructions; the reference semantics halts', {'m': t})
+    ctx.cov['mutated_loop_sources_accepted'] = len(acc)
     ctx.cov['rule'] = ('accepted sources in all layouts plus all attempts at self / forward / mutual reference (also across files and redefinitions); on the implementation: '
                        'EXEC targets vs routine order, maximum activation-stack depth over a run ≤ #programs + 1, LOOP-only sources halt; non-trivial = recursion attempt or halting LOOP-only program')
     ctx.sample(cases[0]['text'])
